@@ -16,7 +16,7 @@ RULE = ("product of bases (1-3 shells, l 0..3, generalized, every coordinate-typ
         "McMurchie-Davidson reference. Non-trivial = reference not identically zero; distinct = distinct rounded "
         "reference vectors (so thresholds that change the mask count separately).")
 ASSUMPTIONS = ["tolerance 1e-8 * (sum_A |Z_A|/d_A [kept] + sum |gamma_ab| sqrt(V_aa V_bb))",
-               "a point exactly on a nucleus is only combined with thresholds > 0 (otherwise the definition is infinite)"]
+               "a point exactly on a nucleus combined with threshold 0 must give an infinite value of the sign of that charge"]
 TOL = 1e-8
 CHUNK = 1
 
@@ -105,8 +105,7 @@ def evaluate(cfg):
         if d > 0:
             thrs += [0.99 * d, 1.01 * d]
     thrs += [float(dist.max() * 1.5)]
-    if not has_zero:
-        thrs = [0.0, 0] + thrs  # float and int zero
+    thrs = [0.0, 0] + thrs  # float and int zero (a point on a nucleus then gives an infinite potential)
     o.notes["max_thresholds"] = len(thrs)
     for thr in thrs:
         keep = dist >= thr
@@ -123,6 +122,13 @@ def evaluate(cfg):
             o.check("electrostatic_potential accepted valid input", False,
                     detail="%s: %s" % (type(e).__name__, str(e)[:200]), key="esp-rejected-" + tr)
             break
-        o.cmp("electrostatic_potential thr=%.6g" % thr, got, ref, TOL, sc,
+        fin = np.isfinite(ref)
+        if not fin.all():
+            # nothing is below a zero threshold: the point sitting on a nucleus keeps its (infinite) nuclear term
+            o.check("threshold 0 keeps the nucleus under the point (infinite potential of the sign of Z)",
+                    bool(np.all(np.isinf(got[~fin]) & (np.sign(got[~fin]) == np.sign(ref[~fin])))),
+                    detail={"got": [float(v) for v in got[~fin]], "expected": [float(v) for v in ref[~fin]]},
+                    key="esp-threshold-zero-on-nucleus", token=("inf", cfg["nuc"]))
+        o.cmp("electrostatic_potential thr=%.6g" % thr, got[fin], ref[fin], TOL, sc[fin],
               key="esp-threshold" if thr > 0 else "esp-value")
     return o
